@@ -208,10 +208,9 @@ func (m *monitor) runHistory(hc histCase) (judged int, nontrivial bool) {
 			got, cerr = h.CalculateWithContext(ctx, reader)
 		case "CalculateStringHash":
 			rd = nil // the helper builds its own strings.Reader
+			// an empty result is this helper's way of reporting an error: for a healthy input it is judged like any other
+			// digest (it is not the reference digest)
 			got = hashing.CalculateStringHash(h, string(data))
-			if got == "" {
-				cerr = errors.New("CalculateStringHash returned the empty string (its error value)")
-			}
 		default:
 			m.r.Fatalf("unknown api %q", st.API)
 		}
